@@ -67,7 +67,7 @@ theorem writeLoop_total {m : Mol} (hW : WInv m) (attrIndex : Nat) : ∀ (fuel : 
         bind_err_at hres with ⟨currAtom, h1, hres⟩
         · have := getIdx_err hres; omega
         have hna : currAtom.isAromatic = false :=
-          hW.nonarom _ (List.mem_of_getElem? (getIdx_ok h1))
+          hW.nonarom _ (List.mem_of_getElem? (getIdx_okD h1))
         bind_err_at hres with ⟨w1, h2, hres⟩
         · split at hres
           · bind_err_at hres with ⟨tok, h3, hres⟩
